@@ -1,6 +1,6 @@
 """C15 crash-injection child (run by harness/vp/props/c15.py with /venv/bin/python, never imported).
 
-usage: c15_child.py SCENARIO_JSON PAR   < JSON list of jobs [[K, LOG_DIR, SIDE_DIR], ...] on stdin   > JSON list of exit codes
+usage: c15_child.py SCENARIO_JSON PAR   < JSON list of jobs [[K, LOG_DIR, SIDE_DIR, EXTRA?], ...] on stdin   > JSON list of exit codes
 The interpreter patches, imports deephyper ONCE and then forks one process per job (PAR at a time); every forked process
 runs the whole scenario in its own LOG_DIR and is killed at its own K.
 Patches builtins.open / io.open / os.rename / os.replace BEFORE importing deephyper, records every COMPLETED operation on
@@ -174,7 +174,51 @@ def run_scenario():
     _act(dict(act="exit"))
 
 
-def run_job(k, log_dir, side):
+def run_restart(spec):
+    """A NEW search (and evaluator) in the directory a killed process left behind: fit_surrogate on the survivor (CBO),
+    then search(n).  Exceptions are recorded, not raised."""
+    from deephyper.hpo import CBO
+
+    problem = HpProblem()
+    problem.add_hyperparameter((0.0, 10.0), "x")
+    multi = spec.get("multi", False)
+    # the new search continues the one whose results.csv survived: same number of objectives
+    surv = os.path.join(LOGDIR, "results.csv")
+    if os.path.exists(surv):
+        with _open(surv) as f:
+            head = f.readline()
+        if head.strip():
+            multi = "objective_0" in head
+
+    async def run(job):
+        uid = 9000 + int(str(job.id).split(".")[-1])
+        with _open(os.path.join(SIDE, "finished.txt"), "a") as f:
+            f.write("%d 0\n" % uid)
+        return (float(uid), float((uid * 7) % 5)) if multi else float(uid)
+
+    try:
+        before = set(fn for fn in os.listdir(LOGDIR) if fn.endswith(".csv"))
+        evaluator = Evaluator.create(run, method="serial", method_kwargs={"num_workers": 1})
+        _act(dict(act="new", at=_count[0]))
+        if spec["kind"] == "cbo":
+            search = CBO(problem, evaluator, random_state=7, log_dir=LOGDIR, surrogate_model="DUMMY", verbose=0)
+            if "results.csv" in before:
+                moved = sorted(set(fn for fn in os.listdir(LOGDIR) if fn.endswith(".csv")) - before)
+                _act(dict(act="fit_surrogate", files=moved))
+                for fn in moved:
+                    search.fit_surrogate(os.path.join(LOGDIR, fn))
+        else:
+            search = RandomSearch(problem, evaluator, random_state=7, log_dir=LOGDIR)
+        search.search(max_evals=spec["n"])
+        _act(dict(act="end", at=_count[0]))
+    except Exception as e:
+        import traceback
+
+        _act(dict(act="raised", exc=type(e).__name__, msg=str(e)[:300], tb=traceback.format_exc()[-1200:], at=_count[0]))
+    _act(dict(act="exit"))
+
+
+def run_job(k, log_dir, side, extra=None):
     """In the forked process: never returns."""
     global LOGDIR, SIDE, K, _oplog, _actlog
     LOGDIR, SIDE, K = os.path.abspath(log_dir), os.path.abspath(side), int(k)
@@ -184,7 +228,10 @@ def run_job(k, log_dir, side):
         os.dup2(out, 2)
         _oplog = _open(os.path.join(SIDE, "ops.jsonl"), "a", buffering=1)
         _actlog = _open(os.path.join(SIDE, "actions.jsonl"), "a", buffering=1)
-        run_scenario()
+        if extra and "restart" in extra:
+            run_restart(extra["restart"])
+        else:
+            run_scenario()
         _oplog.flush()
         _actlog.flush()
         os._exit(0)
@@ -201,10 +248,10 @@ def main():
     codes = []
     for i in range(0, len(jobs), PAR):
         pids = []
-        for k, log_dir, side in jobs[i:i + PAR]:
+        for job in jobs[i:i + PAR]:
             pid = os.fork()
             if pid == 0:
-                run_job(k, log_dir, side)
+                run_job(*job)
             pids.append(pid)
         for pid in pids:
             _, status = os.waitpid(pid, 0)
